@@ -409,7 +409,20 @@ def main(pid, fn, level="model_checking"):
     run.replay = a.replay
     try:
         fn(run)
-        rc = run.finish()
+        if a.replay:
+            # --replay <file>: the check is run again and the recorded scenario is looked for among what it finds now
+            # (exit 1: it shows again; exit 0: it does not; the evidence file is rewritten as by any run)
+            rec = json.load(open(a.replay))
+            if isinstance(rec, list):
+                rec = rec[0] if rec else {}
+            volatile = {"run", "choices", "worker", "issued"}
+            same = lambda v: all(v.get(k) == rec[k] for k in rec if k not in volatile and k in v) and v.get("check") == rec.get("check")
+            again = any(same(v) for v in run.violations)
+            print("REPLAY property=%s file=%s reproduced=%s" % (pid, a.replay, "yes" if again else "no"))
+            run.finish()
+            rc = 1 if again else 0
+        else:
+            rc = run.finish()
     except Inconclusive as e:
         log("INCONCLUSIVE %s: %s" % (pid, e))
         rc = 2
